@@ -73,7 +73,7 @@ def nontrivial(c):
 
 
 def correspond(ctx, C):
-    n = 5000 if ctx.tier == "quick" else 300000
+    n = 15000 if ctx.tier == "quick" else 300000
     if ctx.search:
         n *= 3
     rows = C.run_family("simple", n, ctx.seed, ctx.tier, replay=S.replay_file(ctx, C))
